@@ -45,6 +45,7 @@ type wrec struct {
 }
 
 type Verifier struct {
+	deferredGU []deferredGhost
 	P            *Program
 	C            *Contracts
 	D            *Decls
